@@ -130,7 +130,155 @@ CCS_CHECK = ("        if new_container_size > self.MAX_SIZE:\n"
              "        new_extra_lease_offset = self.DATA_OFFSET + new_container_size\n")
 EARLY_TEST = "                if offset + len(data) > MutableShareFile.MAX_SIZE:\n"
 
+# ---- the write stage as a whole (seeded C24-I: a tidy-up of _evaluate_write_vectors / _allocate_slot_share)
+SIZE_COMMENT = ("        # Refuse the whole request before touching any share if one of its\n"
+                "        # writes cannot fit: otherwise the shares written before the\n"
+                "        # oversized one would stay modified although the request failed.\n")
+RMDIR_COMMENT = ("                # delete bucket directories that exist but are empty.  They\n"
+                 "                # might not exist if a client showed up and asked us to\n"
+                 "                # truncate a share we weren't even holding.\n")
+APPLY_LOOP = (
+    APPLY_HEAD +
+    "                    shares[sharenum].unlink()\n"
+    "            else:\n"
+    "                if sharenum not in shares:\n"
+    "                    # allocate a new share\n"
+    "                    share = self._allocate_slot_share(bucketdir, secrets,\n"
+    "                                                      sharenum,\n"
+    "                                                      owner_num=0)\n"
+    "                    shares[sharenum] = share\n"
+    "                shares[sharenum].writev(datav, new_length)\n"
+    "                remaining_shares[sharenum] = shares[sharenum]\n"
+    "\n"
+    "            if new_length == 0:\n" + RMDIR_COMMENT +
+    "                if os.path.exists(bucketdir) and [] == os.listdir(bucketdir):\n"
+    "                    os.rmdir(bucketdir)\n")
+EWV_BODY = "        remaining_shares = {}\n\n" + SIZE_COMMENT + SIZE_CHECK + "\n" + APPLY_LOOP + "        return remaining_shares\n"
+ALLOC = (
+    "    def _allocate_slot_share(self, bucketdir, secrets, sharenum,\n"
+    "                             owner_num=0):\n"
+    "        (write_enabler, renew_secret, cancel_secret) = secrets\n"
+    "        my_nodeid = self.my_nodeid\n"
+    "        fileutil.make_dirs(bucketdir)\n"
+    "        filename = os.path.join(bucketdir, \"%d\" % sharenum)\n"
+    "        share = create_mutable_sharefile(filename, my_nodeid, write_enabler,\n"
+    "                                         self)\n"
+    "        return share\n")
+ALLOC_MAKE_DIRS = "        fileutil.make_dirs(bucketdir)\n        filename = os.path.join(bucketdir, \"%d\" % sharenum)\n"
+ALLOC_TIDY = (
+    "    def _allocate_slot_share(self, bucketdir, sharenum, write_enabler):\n"
+    "        filename = os.path.join(bucketdir, \"%d\" % sharenum)\n"
+    "        return create_mutable_sharefile(\n"
+    "            filename, self.my_nodeid, write_enabler, self,\n"
+    "        )\n")
+ANY_SIZE_CHECK = (
+    "        if any(\n"
+    "                offset + len(data) > MutableShareFile.MAX_SIZE\n"
+    "                for (_, datav, _) in test_and_write_vectors.values()\n"
+    "                for (offset, data) in datav\n"
+    "        ):\n"
+    "            raise DataTooLargeError()\n")
+RMDIR_IF_EMPTY = ("if os.path.exists(bucketdir) and [] == os.listdir(bucketdir):\n", "    os.rmdir(bucketdir)\n")
+
+
+def _ewv_tidy(rmdir_in_loop, make_dirs="hoisted"):
+    """_evaluate_write_vectors after the tidy-up of seeded C24-I: any() pre-checks, tuple-unpacking loop with an early
+    continue, make_dirs hoisted out of _allocate_slot_share.  rmdir_in_loop=True is the slip (the empty directory is
+    removed inside the loop, after the hoisted make_dirs); False moves that step behind the loop."""
+    def rmdir(ind):
+        return ind + RMDIR_IF_EMPTY[0] + ind + RMDIR_IF_EMPTY[1]
+    hoist = ("        if any(\n"
+             "                new_length != 0 and sharenum not in shares\n"
+             "                for sharenum, (_, _, new_length) in test_and_write_vectors.items()\n"
+             "        ):\n"
+             "            fileutil.make_dirs(bucketdir)\n\n") if make_dirs == "hoisted" else ""
+    return ("        (write_enabler, _, _) = secrets\n\n" + SIZE_COMMENT + ANY_SIZE_CHECK + "\n" + hoist +
+            "        remaining_shares = {}\n"
+            "        for sharenum, (_, datav, new_length) in test_and_write_vectors.items():\n"
+            "            if new_length == 0:\n"
+            "                if sharenum in shares:\n"
+            "                    shares[sharenum].unlink()\n" +
+            (rmdir("                ") if rmdir_in_loop else "") +
+            "                continue\n\n"
+            "            if sharenum not in shares:\n" +
+            ("                fileutil.make_dirs(bucketdir)\n" if make_dirs == "in-loop" else "") +
+            "                shares[sharenum] = self._allocate_slot_share(\n"
+            "                    bucketdir, sharenum, write_enabler,\n"
+            "                )\n"
+            "            shares[sharenum].writev(datav, new_length)\n"
+            "            remaining_shares[sharenum] = shares[sharenum]\n" +
+            ("" if rmdir_in_loop else rmdir("        ")) +
+            "        return remaining_shares\n")
+
+
+EWV_DELETIONS_FIRST = (
+    "        remaining_shares = {}\n\n" + SIZE_COMMENT + SIZE_CHECK + "\n"
+    "%s"
+    "        for sharenum in test_and_write_vectors:\n"
+    "            (testv, datav, new_length) = test_and_write_vectors[sharenum]\n"
+    "            if new_length == 0 and sharenum in shares:\n"
+    "                shares[sharenum].unlink()\n"
+    "        if os.path.exists(bucketdir) and [] == os.listdir(bucketdir):\n"
+    "            os.rmdir(bucketdir)\n"
+    "%s"
+    "        for sharenum in test_and_write_vectors:\n"
+    "            (testv, datav, new_length) = test_and_write_vectors[sharenum]\n"
+    "            if new_length != 0:\n"
+    "                if sharenum not in shares:\n"
+    "                    shares[sharenum] = self._allocate_slot_share(bucketdir, secrets, sharenum)\n"
+    "                shares[sharenum].writev(datav, new_length)\n"
+    "                remaining_shares[sharenum] = shares[sharenum]\n"
+    "        return remaining_shares\n")
+NEEDS_DIR = ("        if any(v[2] != 0 and k not in shares for (k, v) in test_and_write_vectors.items()):\n"
+             "            fileutil.make_dirs(bucketdir)\n")
+ALLOC_NO_MAKE_DIRS = (ALLOC_MAKE_DIRS, "        filename = os.path.join(bucketdir, \"%d\" % sharenum)\n")
+
 MUTANTS = [
+    # ---- C24.13 the bucket directory is there whenever a share is created in it
+    M("tidy-up-rmdir-left-in-loop", SRV, EWV_BODY, _ewv_tidy(True), "C24.13", edits=[(SRV, ALLOC, ALLOC_TIDY)],
+      note="seeded C24-I: {0: delete (last share), 1: new share}: the deletion removes the directory the hoisted make_dirs "
+           "created, allocating share 1 raises FileNotFoundError after share 0 is gone"),
+    M("make-dirs-hoisted-before-write-loop", SRV, SIZE_CHECK + "\n" + APPLY_HEAD,
+      SIZE_CHECK + "\n        fileutil.make_dirs(bucketdir)\n" + APPLY_HEAD, "C24.13", edits=[(SRV,) + ALLOC_NO_MAKE_DIRS],
+      note="same effect with the code otherwise unchanged"),
+    M("deletions-first-directory-ensured-too-early", SRV, EWV_BODY, EWV_DELETIONS_FIRST % (NEEDS_DIR, ""), "C24.13",
+      edits=[(SRV,) + ALLOC_NO_MAKE_DIRS],
+      note="the same slip in a two-loop write stage: the directory is ensured before the deletions (and their rmdir), not after"),
+    M("directory-ensured-only-if-parent-missing", SRV, EWV_BODY, EWV_DELETIONS_FIRST % ("", ""), "C24.13",
+      edits=[(SRV, ALLOC_MAKE_DIRS, "        if not os.path.isdir(os.path.dirname(bucketdir)):\n"
+                                    "            fileutil.make_dirs(bucketdir)\n" + ALLOC_NO_MAKE_DIRS[1])],
+      note="a guard that looks at the filesystem is not a decision that the directory is not needed: after the request's own "
+           "rmdir nothing re-creates it"),
+    M("bucketdir-created-with-plain-mkdir", SRV, ALLOC_MAKE_DIRS,
+      "        fileutil.make_dirs(os.path.dirname(bucketdir))\n        os.mkdir(bucketdir)\n" + ALLOC_NO_MAKE_DIRS[1], "C24.13",
+      note="the second new share of one request (or a new share in an existing slot) raises FileExistsError after earlier shares were written"),
+    M("benign-tidy-up-rmdir-after-loop", SRV, EWV_BODY, _ewv_tidy(False), None, edits=[(SRV, ALLOC, ALLOC_TIDY)],
+      note="the refactor of seeded C24-I done faithfully: the empty directory is removed once, behind the loop"),
+    M("benign-tidy-up-make-dirs-per-allocation", SRV, EWV_BODY, _ewv_tidy(True, make_dirs="in-loop"), None, edits=[(SRV, ALLOC, ALLOC_TIDY)],
+      note="the same tidy-up with make_dirs kept next to each allocation"),
+    M("benign-deletions-first-then-ensure", SRV, EWV_BODY, EWV_DELETIONS_FIRST % ("", NEEDS_DIR), None, edits=[(SRV,) + ALLOC_NO_MAKE_DIRS],
+      note="all deletions (and the rmdir) first, then the directory is ensured if a share will be allocated"),
+    M("benign-bucketdir-makedirs-exist-ok", SRV, ALLOC_MAKE_DIRS, "        os.makedirs(bucketdir, exist_ok=True)\n" + ALLOC_NO_MAKE_DIRS[1], None),
+    M("benign-bucketdir-mkdir-if-missing", SRV, ALLOC_MAKE_DIRS,
+      "        if not os.path.isdir(bucketdir):\n            fileutil.make_dirs(os.path.dirname(bucketdir))\n            os.mkdir(bucketdir)\n"
+      + ALLOC_NO_MAKE_DIRS[1], None),
+    # ---- C24.8 / C24.12 the early refusal written with a quantifier
+    M("benign-size-check-any", SRV, SIZE_CHECK, ANY_SIZE_CHECK, None,
+      note="was ANALYSIS-ERROR (seeded C24-I): the any() form is the same loop nest"),
+    M("benign-size-check-not-all-listcomp", SRV, SIZE_CHECK,
+      "        if not all([offset + len(data) <= MutableShareFile.MAX_SIZE\n"
+      "                    for sharenum, (testv, datav, new_length) in test_and_write_vectors.items()\n"
+      "                    for (offset, data) in datav]):\n"
+      "            raise DataTooLargeError()\n", None),
+    M("any-size-check-first-write-only", SRV, SIZE_CHECK, ANY_SIZE_CHECK.replace("in datav\n", "in datav[:1]\n"), "C24.8"),
+    M("any-size-check-existing-shares-only", SRV, SIZE_CHECK, ANY_SIZE_CHECK.replace(
+        "for (_, datav, _) in test_and_write_vectors.values()\n",
+        "for (sharenum, (_, datav, _)) in test_and_write_vectors.items() if sharenum in shares\n"), "C24.8"),
+    M("any-size-check-ignores-data-length", SRV, SIZE_CHECK, ANY_SIZE_CHECK.replace("offset + len(data) >", "offset >"), "C24.8"),
+    M("all-size-check-is-universal", SRV, SIZE_CHECK, ANY_SIZE_CHECK.replace("if any(", "if all("), "ANALYSIS-ERROR",
+      note="refuses only when EVERY write is oversized: not an existential refusal, not recognised as the early check"),
+    M("any-size-check-limit-includes-header", SRV, SIZE_CHECK, ANY_SIZE_CHECK.replace(
+        "> MutableShareFile.MAX_SIZE\n", "> MutableShareFile.MAX_SIZE + MutableShareFile.DATA_OFFSET\n"), "C24.12"),
     # ---- C24.1 guarded writes
     M("write-guard-always-true", SRV, "        if testv_is_good:\n            # now apply the write vectors",
       "        if testv_is_good is not None:\n            # now apply the write vectors", "C24.1"),
